@@ -325,7 +325,7 @@ func (e effective) key() string {
 
 func main() {
 	run := report.New("C19", "exploration")
-	run.Rule("assignments over 13 documented options (mode, work_dir, storage_type, update_interval, signature_validation_mode, crl_urls, crl_files, trusted_signature_certs_files, crl_fetch_mode, crl_cdp_strict, default_cache_duration, ocsp_aia_strict, trusted_responder_certs_files): every option alone, all pairs of (option, value) through a greedy pairwise cover, and seeded random subsets; each assignment is rendered as JSON and as Caddyfile, both are loaded the way Caddy loads a guest module (inline key, strict JSON, Provision; Caddyfile via UnmarshalModule + JSONModuleObject first); oracle: both load, their exported effective configurations are equal to each other and to the documented defaults applied to the assignment, and three behavioural probes (listed certificate, unavailable strict CDP, unavailable strict responder) agree with the mode table; invalid variants (misspelt key at each nesting level, unknown enum, bad duration, non-boolean, missing argument, missing file, missing/non-directory work_dir) must fail to load in both syntaxes; non-trivial = assignment with >= 2 options set (valid) or invalid variant that was rejected in both syntaxes; distinct = assignment text")
+	run.Rule("assignments over 13 documented options (mode, work_dir, storage_type, update_interval, signature_validation_mode, crl_urls, crl_files, trusted_signature_certs_files, crl_fetch_mode, crl_cdp_strict, default_cache_duration, ocsp_aia_strict, trusted_responder_certs_files): every option alone, all pairs of (option, value) through a greedy pairwise cover, and seeded random subsets; each assignment is rendered as JSON and as Caddyfile, both are loaded (and loaded a second time after Cleanup, as a configuration reload does; work_dir spelt with trailing slash / dot segment / doubled slash in rotation) the way Caddy loads a guest module (inline key, strict JSON, Provision; Caddyfile via UnmarshalModule + JSONModuleObject first); oracle: both load, their exported effective configurations are equal to each other and to the documented defaults applied to the assignment, and three behavioural probes (listed certificate, unavailable strict CDP, unavailable strict responder) agree with the mode table; invalid variants (misspelt key at each nesting level, unknown enum, bad duration, non-boolean, missing argument, missing file, missing/non-directory work_dir) must fail to load in both syntaxes; non-trivial = assignment with >= 2 options set (valid) or invalid variant that was rejected in both syntaxes; distinct = assignment text")
 	run.Assume("the Caddyfile form is the one documented in the README (crl_url / crl_file / trusted_signature_cert_file / trusted_responder_cert_file repeated per list element)")
 	scratch, _ := report.Scratch("C19")
 	sut.QuietStderr(filepath.Join(scratch, "stderr.log"))
@@ -479,6 +479,15 @@ func main() {
 			wdN++
 			d := filepath.Join(scratch, fmt.Sprintf("wd%d", wdN))
 			_ = os.MkdirAll(d, 0755)
+			// the same directory written in the ways configurations do (the README uses ./crlworkdir)
+			switch wdN % 4 {
+			case 1:
+				d += "/"
+			case 2:
+				d = filepath.Dir(d) + "/./" + filepath.Base(d)
+			case 3:
+				d = filepath.Dir(d) + "//" + filepath.Base(d)
+			}
 			b["work_dir"] = d
 		}
 		return b
@@ -549,6 +558,14 @@ func main() {
 			// normalise the per-form work_dir-dependent parts: none of the compared fields contain it
 			probes[form] = probe(l.val)
 			l.cancel()
+			// a configuration reload: the same configuration is loaded again after the old module was cleaned up
+			if l2nd, err := loadJSON(raw); err != nil {
+				ok = false
+				run.Violation("valid-assignment.reload-failed."+formName, fmt.Sprintf("%s: %s form loaded once but not again after Cleanup: %v\n%s", desc, formName, err, raw), &report.Replay{Case: desc, Files: map[string][]byte{"config.json": raw}})
+				break
+			} else {
+				l2nd.cancel()
+			}
 			if got[form].key() != want.key() {
 				ok = false
 				run.Violation("effective-config-differs-from-documented."+formName+"."+diffField(got[form], want), fmt.Sprintf("%s: %s form yields %s, documented semantics give %s", desc, formName, got[form].key(), want.key()), &report.Replay{Case: desc, Files: map[string][]byte{"config": raw}})
